@@ -37,7 +37,10 @@ SeqsOver(S, k) == IF k = 0 THEN {<<>>} ELSE {Append(s, x) : s \in SeqsOver(S, k 
 \* 4 and 4 in the quick tier (the property's quantifier: 496 shapes); the thorough tier goes beyond it
 CONSTANTS MaxCaps, MaxArgs
 CapSeqs == UNION {SeqsOver({"ref", "mut"}, k) : k \in 0 .. MaxCaps}
-Shapes == [caps : CapSeqs, nargs : 1 .. MaxArgs, ret : BOOLEAN, comma : BOOLEAN]
+\* reftag: one more, reference-typed (&i64) argument that every recursive call passes on unchanged and the base case reads;
+\* the generated test then calls the SAME closure twice, each time with a borrow of another short-lived local
+Shapes == [caps : CapSeqs, nargs : 1 .. MaxArgs, ret : BOOLEAN, comma : BOOLEAN, reftag : BOOLEAN]
+TagValue == 7
 
 RECURSIVE SharedSumRec(_, _, _)
 SharedSumRec(sh, caps, i) == IF i > Len(caps) THEN 0 ELSE (IF sh.caps[i] = "ref" THEN caps[i] ELSE 0) + SharedSumRec(sh, caps, i + 1)
@@ -57,7 +60,7 @@ Run(sh, caps, args) ==
     LET a1 == args[1]
         S  == SharedSum(sh, caps)
     IN IF a1 <= 0
-       THEN [ret |-> S + args[Len(args)],
+       THEN [ret |-> S + args[Len(args)] + (IF sh.reftag THEN TagValue ELSE 0),
              caps |-> [i \in 1 .. Len(caps) |-> IF sh.caps[i] = "mut" THEN caps[i] + 1 ELSE caps[i]]]
        ELSE LET c1 == [i \in 1 .. Len(caps) |-> IF sh.caps[i] = "mut" THEN 2 * caps[i] + a1 + S + Helper(a1) ELSE caps[i]]
                 r1 == Run(sh, c1, Rotate([args EXCEPT ![1] = a1 - 1]))
@@ -78,6 +81,9 @@ Next == UNCHANGED sh
 Spec == Init /\ [][Next]_sh
 
 EmitShape ==
-    Emit([caps |-> sh.caps, nargs |-> sh.nargs, ret |-> sh.ret, comma |-> sh.comma, init |-> InitCaps(sh),
-          runs |-> {[args |-> a, ret |-> Run(sh, InitCaps(sh), a).ret, caps |-> Run(sh, InitCaps(sh), a).caps] : a \in Inputs(sh)}])
+    Emit([caps |-> sh.caps, nargs |-> sh.nargs, ret |-> sh.ret, comma |-> sh.comma, reftag |-> sh.reftag, init |-> InitCaps(sh),
+          \* ret2 / caps2: the same closure called a second time with the same arguments (used by the reftag shapes)
+          runs |-> {LET r1 == Run(sh, InitCaps(sh), a)
+                        r2 == Run(sh, r1.caps, a)
+                    IN [args |-> a, ret |-> r1.ret, caps |-> r1.caps, ret2 |-> r2.ret, caps2 |-> r2.caps] : a \in Inputs(sh)}])
 =============================================================================
